@@ -174,6 +174,9 @@ def check(case, ctx):
         ci2 = ci2.astype(float)
         ctx.label("float-labels")
     o1 = ctx.call(f, gen.layout(W.copy(), case.get("order")), ci.copy())
+    # history: between the two calls the routine serves the same network with the finest partition (work tables kept between calls
+    # and sized by the number of communities must not leak into the next answer)
+    ctx.call(f, gen.layout(W.copy(), case.get("order")), np.arange(1, len(W) + 1))
     o2 = ctx.call(f, gen.layout(W.copy(), case.get("order")), ci2.copy())
     d, how = compare.outcomes_equal(o1, o2, RT, AT)
     ctx.notes[how] += 1
